@@ -966,6 +966,9 @@ def broach_family(tier, seed):
         AccessorElement(ctx, create_key_accessor(0, access_error=None)),
         AccessorElement(ctx, create_key_accessor(1, access_error=None)),
         AccessorElement(data, CustomAccessor()),
+        # (appended: indices above are referred to below) strings with line breaks -- a literal rendered over several source
+        # lines picks up the indentation of the generated body
+        ConstantElement("line1\nline2"), ConstantElement(("a\nb", 1)),
     ]
     nested_acc = AccessorElement(AccessorElement(data, create_attr_accessor("inner", is_required=True)),
                                  create_attr_accessor("leaf", is_required=True))
@@ -1226,6 +1229,11 @@ def convpipe_family(tier, seed):
          "recipe": [{"k": "link", "src": "zz", "dst": "c", "level": "top"}, {"k": "const", "dst": "c", "value": 5, "level": "top"}]},
     ]
     fixed += [
+        # a keyword-only parameter of a linked function named like a source field AND like a converter parameter: the field
+        {"src_fields": ["a", "x"], "dst_fields": [("a", False), ("c", False)], "params": ["x"],
+         "recipe": [{"k": "func", "dst": "c", "kwonly": ["x"], "pos": [], "level": "top"}]},
+        {"src_fields": ["a", "x"], "dst_fields": [("a", False), ("c", False)], "params": ["x", "a"],
+         "recipe": [{"k": "func", "dst": "c", "kwonly": ["a", "x"], "pos": [], "level": "top"}]},
         {"src_fields": ["a", "z"], "dst_fields": [("a", False), ("d", True), ("z", True)], "params": [],
          "recipe": [{"k": "allow", "dst": "d", "level": "top"}]},
         {"src_fields": ["a", "c"], "dst_fields": [("a", False), ("d", True), ("z", True)], "params": ["z"],
